@@ -27,12 +27,12 @@ META = {
         "pint/facets/context/registry.py::with_context",
         "pint/facets/plain/registry.py::_convert (through the decorators)",
     ],
-    "bounds": {"parameters": "1-3 (3: seeded sample in quick)", "spec alphabet": "None, 'meter', Unit(second), '=A', '=B', '=A*B', '=A**2'", "argument kinds": "quantity in a compatible unit, in an incompatible unit, bare number", "call forms": "positional, last-as-keyword, last-by-default", "magnitudes": "all rationals (symbolic)"},
+    "bounds": {"parameters": "1-3 (3: seeded sample in quick)", "spec alphabet": "None, 'meter', Unit(second), '=A', '=B', '=A*B', '=A**2', '=A*B**-1'", "argument kinds": "quantity in a compatible unit, in an incompatible unit, bare number", "call forms": "positional, last-as-keyword, last-by-default", "magnitudes": "all rationals (symbolic)"},
     "enumerated_axes": [{"axis": "signature x spec tuple x call form x strict x return spec", "exhaustive": False}],
     "outside_claim": ["more than 3 parameters", "string arguments parsed in strict mode", "ndarray arguments"],
 }
 
-SPECS = [None, "meter", "U:second", "=A", "=B", "=A*B", "=A**2"]
+SPECS = [None, "meter", "U:second", "=A", "=B", "=A*B", "=A**2", "=A*B**-1"]
 ALT = {"meter": "inch", "second": "hour"}
 BAD = {"meter": "gram", "second": "gram"}
 
@@ -373,6 +373,48 @@ def h_with_context(eng):
         eng.prove(Eq(g(q).magnitude, 299792458 / (x * nn)), "with_context-inside-unrelated-context")
 
 
+def h_reference_units(eng):
+    """units derived from '=A*B' style references are units like any other: what cancels is gone
+    (no zero exponents), so the result equals, prints and hashes like the plainly written unit"""
+    ureg = regs.default(eng)
+    x, y, r0 = eng.real("x"), eng.real("y"), eng.real("r0")
+    rows = [
+        ("=A*B", "meter/second", "second", {"meter": 1}),
+        ("=A*B**-1", "meter", "meter", {}),
+        ("=A*B", "kilometer/hour", "hour", {"kilometer": 1}),
+        ("=A**2*B", "meter/second", "second**2", {"meter": 2}),
+        ("=A*B", "newton", "meter", {"newton": 1, "meter": 1}),
+        ("=A*B**-1", "meter", "second", {"meter": 1, "second": -1}),
+    ]
+    for ret, ua, ub, want in rows:
+        @ureg.wraps(ret, ("=A", "=B"), strict=False)
+        def f(a, b):
+            return r0
+
+        @ureg.wraps((ret, None), ("=A", "=B"), strict=False)
+        def g(a, b):
+            return r0, a
+
+        for label, r in (("scalar", f(ureg.Quantity(x, ua), ureg.Quantity(y, ub))), ("tuple", g(ureg.Quantity(x, ua), ureg.Quantity(y, ub))[0])):
+            got = {k: (v.c if hasattr(v, "c") else v) for k, v in r._units.items()}
+            eng.prove(got == want, f"reference-units:{ret}:{ua},{ub}:{label}:exponents")
+            plain = ureg.Unit(ureg.UnitsContainer(want))
+            eng.prove(r.units == plain and hash(r.units) == hash(plain) and str(r.units) == str(plain), f"reference-units:{ret}:{ua},{ub}:{label}:same-as-plain-unit")
+            eng.prove(Eq(r.magnitude, r0), f"reference-units:{ret}:{ua},{ub}:{label}:magnitude")
+            eng.prove(r.unitless == (not want), f"reference-units:{ret}:{ua},{ub}:{label}:unitless-iff-everything-cancels")
+
+        # an argument spec computed from references: converted with the cancelled unit
+        seen = []
+
+        @ureg.wraps(None, ("=A", "=B", ret), strict=False)
+        def h(a, b, c):
+            seen.append(c)
+            return None
+
+        h(ureg.Quantity(x, ua), ureg.Quantity(y, ub), ureg.Quantity(r0, ureg.UnitsContainer(want)) if want else r0)
+        eng.prove(len(seen) == 1 and Eq(seen[0], r0), f"reference-units:{ret}:{ua},{ub}:dependent-argument-value")
+
+
 def h_reentrant(eng):
     """one decorator object, used re-entrantly: a wrapped function that calls itself (or a sibling
     made by the same ureg.wraps(...) object) with arguments in other units still gets its own
@@ -497,4 +539,5 @@ def cases(tier, seed):
     out.append(Case("H17.check", "with_context", M, "h_with_context", {}, validate=1))
     out.append(Case("H17.wraps", "fraction-registry-exact", M, "h_exact_types", {}, kind="conc"))
     out.append(Case("H17.wraps", "reentrant", M, "h_reentrant", {}, validate=1))
+    out.append(Case("H17.wraps", "reference-units", M, "h_reference_units", {}, validate=1))
     return out
